@@ -196,7 +196,9 @@ def tok_kind(tok):
         if ph == "X" and base(e) and "dur" in e:
             return "X"
         # (an "args" dict is optional in the trace event format: events without one are ordinary input)
-        if ph == "M" and base(e, False) and "dur" not in e:
+        # (a metadata event is passed on whatever other keys it carries: a "dur" - even 0 or negative - does not make it
+        # a slice, and the zero/negative-duration rule is about slices)
+        if ph == "M" and base(e, False):
             return "M"
         if ph in ("i", "b", "e") and base(e) and "dur" not in e:      # instant / async begin, end: annotated, passed on
             return "i"
@@ -251,7 +253,8 @@ def expected_file(f):
                         "annotated": True, "where": "attr" if "attr" in e else "args", "pid0": e["pid"]})
         else:
             exp.append({"uid": e["uid"], "ph": e["ph"], "name": e["name"],
-                        "ts": None if "ts" not in e else enc.frac(e["ts"]), "dur": None,
+                        "ts": None if "ts" not in e else enc.frac(e["ts"]),
+                        "dur": enc.frac(e["dur"]) if (k == "M" and "dur" in e) else None,      # passed on as it came
                         "annotated": annotated, "where": "args", "pid0": e["pid"]})
     return exp, zero, neg, (rank if check_rank else None)
 
@@ -409,6 +412,8 @@ def gen_file(r, fi, maxtok=8):
         elif x < 0.87:
             ts = None if (r.random() < 0.5) else t
             tok = [mk(uid, "M", r.choice(["process_name", "thread_name"]), ts, pid, r, p_args=0.7, p_attr=0)]
+            if r.random() < 0.25:
+                tok[0]["dur"] = r.choice([0, 0.0, -1, 5, 0.5])
         elif x < 0.94:
             tok = [mk(uid, "C", "ctr", t, pid, r, p_args=0.8, p_attr=0)]
         else:
